@@ -94,7 +94,8 @@ def delp(obj, path):
 
 TYPES = [5, 'str', [], {}, None, True, 1.5, -3, [1], {'value': 1}]
 NUMS = lambda n: [-1, 0, 1, n - 1, n, n + 1, n + 2, 10 ** 6, -10 ** 6]       # noqa: E731
-STRINGS = ['', '< > & " \'', 'line\nbreak', 'tab\there', 'x' * 10000, 'lone \ud800 surrogate', '\u202e\u0000', '%s {0} \\n']
+STRINGS = ['', '< > & " \'', 'line\nbreak', 'tab\there', 'x' * 10000, 'lone \ud800 surrogate', '\u202e\u0000', '%s {0} \\n',
+           'a<br>\nb</td></tr>\n<tr><td>', 'upper \udc00 escape']     # the report's own row markup; the escape is sent as \\uDC00
 _paths = None
 
 
@@ -128,7 +129,7 @@ def answer_bytes(case):
                 apply_fault(ans, f)
             except (KeyError, IndexError, TypeError):
                 return None         # second fault addresses something the first one removed
-        return json.dumps(ans).encode('utf-8')
+        return json.dumps(ans).encode('utf-8').replace(b'\\udc00', b'\\uDC00')
     if kind == 'trunc':
         return json.dumps(base_answer(), ensure_ascii=False).encode('utf-8')[:case[1]]
     if kind == 'raw':
